@@ -398,6 +398,48 @@ fn run_packet_numbers(kind: u64, ttl_ix: u64, trace: bool) -> CaseResult {
     res
 }
 
+/// A registration is inside its probing window when a peer's probe for the same names arrives whose
+/// authority section holds any subset of {our SRV, our TXT, another SRV, another TXT} for the
+/// instance and of {our address, our second address, another address} for the host - fewer records
+/// than we propose, the same, more, equal or different.  x = [instance subset mask, host subset mask,
+/// probe step the packet follows].
+fn run_probe_subsets(x: &[u64], trace: bool) -> CaseResult {
+    let mut res = CaseResult { nontrivial: true, transitions: 1, ..Default::default() };
+    let mut w = World::one(lay_v4());
+    w.trace = trace;
+    w.ds[0].h.set_ip_check_interval(0).unwrap();
+    w.ds[0].ctl.set_rng_default(0);
+    w.poke(0);
+    w.ds[0].h.register(svc("_t._tcp.local.", "mine", "myhost.local.", "10.0.0.5,10.0.0.6", 80, &[("k", "v")])).unwrap();
+    w.poke(0);
+    w.advance([100u64, 350, 600][x[2] as usize]);
+    let mine = n("mine._t._tcp.local");
+    let host = n("myhost.local");
+    let inst_menu = [srv(&mine, &host, 80, 120), txt(&mine, &txt_rdata(&[(b"k", Some(b"v"))]), 4500), srv(&mine, &n("zzz.local"), 9999, 120), txt(&mine, &txt_rdata(&[(b"z", Some(b"z"))]), 4500)];
+    let host_menu = [a(&host, [10, 0, 0, 5], 120), a(&host, [10, 0, 0, 6], 120), a(&host, [10, 0, 0, 200], 120)];
+    let mut q = query(vec![(mine.clone(), T_ANY), (host.clone(), T_ANY)]);
+    for (k, r) in inst_menu.iter().enumerate() {
+        if x[0] & (1 << k) != 0 {
+            let mut r = r.clone();
+            r.flush = false;
+            q.authorities.push(r);
+        }
+    }
+    for (k, r) in host_menu.iter().enumerate() {
+        if x[1] & (1 << k) != 0 {
+            let mut r = r.clone();
+            r.flush = false;
+            q.authorities.push(r);
+        }
+    }
+    w.deliver(0, IF0, PEER0, build(&q));
+    w.advance(6000);
+    still_serving(&mut w, &mut res, "probe-with-a-subset-of-our-records", &format!("instance authorities mask {:#06b}, host authorities mask {:#05b}, after probe {}", x[0], x[1], x[2] + 1));
+    res.outcome = outcome_hash(&w.log);
+    res.states = final_states(&w);
+    res
+}
+
 /// Every prefix of packets the crate itself encoded (compressed names, probes with authority
 /// records, announcements, answers) and of the hand-built corpus, delivered to a daemon that browses,
 /// resolves and has a registration: it must survive all of them.
@@ -514,6 +556,15 @@ pub fn check(tier: &str) -> i32 {
     rep.require("api-strings", "still_serving");
     rep.require("hostile-names-in-packets", "still_serving");
     let ndims = [4u64, 7];
+    let pdims = [16u64, 8, 3];
+    let subs = FnPart {
+        name: "simultaneous-probes-with-subsets-of-our-records".into(),
+        rule: "a registration (SRV, TXT, two addresses) is probing; after its 1st / 2nd / 3rd probe a peer's probe for the same names arrives with every subset of {our SRV, our TXT, another SRV, another TXT} x every subset of {our address, our second address, another address} as authorities; the daemon thread must not end and the daemon must still serve".into(),
+        n: product(&pdims),
+        describe: Box::new(move |i| format!("{:?}", unrank(i, &pdims))),
+        run: Box::new(move |i, tr| run_probe_subsets(&unrank(i, &pdims), tr)),
+    };
+    rep.run_part(&subs, Duration::from_secs(120));
     let nums = FnPart {
         name: "hostile-numbers-in-packets".into(),
         rule: "TTL in {0, 1, 2, 2^31-1, 2^31, 2^32-2, 2^32-1} on: known answers equal to the records the daemon would answer with (multicast and legacy queries, with and without cache-flush bit), the records of a browsed instance and of a searched host (received twice, then verify), probe authorities and conflicting responses while a registration is probing, SRV priority/weight/port extremes followed by a goodbye; then 4 s and the still-serving test".into(),
